@@ -84,6 +84,10 @@ DtCompound == {[kind |-> "dt_compound", ver |-> ver, members |-> m] :
 Offset(m, i) == LET RECURSIVE Sum(_)
                     Sum(k) == IF k = 0 THEN 0 ELSE m[k].size + Sum(k - 1)
                 IN Sum(i - 1)
+\* compounds with many members (the member count is a 16-bit field of the class bits; 255/256/257 cross its low byte): int32 members
+\* named m0, m1, ... at offsets 0, 4, ...
+DtCompoundN == {[kind |-> "dt_compound_n", ver |-> ver, n |-> n] : ver \in {1, 3}, n \in {255, 256, 257}}
+ExpDtCompoundN(v) == [class |-> 6, ver |-> v.ver, size |-> 4 * v.n, n |-> v.n, lastoff |-> 4 * (v.n - 1), lastname |-> "m" \o ToString(v.n - 1)]
 ExpDtCompound(v) == [class |-> 6, ver |-> v.ver, size |-> Offset(v.members, Len(v.members) + 1),
                      members |-> [i \in 1..Len(v.members) |->
                                     [name |-> MemberNames[i], off |-> Offset(v.members, i),
@@ -188,14 +192,14 @@ ExpOHeader(v) == [ver |-> v.ver, n |-> Len(v.msgs), rc |-> IF v.ver = 1 THEN v.r
 -----------------------------------------------------------------------------
 Values(k) ==
   CASE k = "dt_basic" -> DtBasic [] k = "dt_opaque" -> DtOpaque [] k = "dt_vlen" -> DtVlen [] k = "dt_array" -> DtArray
-    [] k = "dt_enum" -> DtEnum [] k = "dt_compound" -> DtCompound [] k = "dataspace" -> Dataspace
+    [] k = "dt_enum" -> DtEnum [] k = "dt_compound" -> DtCompound [] k = "dt_compound_n" -> DtCompoundN [] k = "dataspace" -> Dataspace
     [] k = "layout" -> {v \in Layout : WfLayout(v)} [] k = "pipeline" -> Pipeline [] k = "attr" -> Attr
     [] k = "ainfo" -> {v \in AttrInfo : WfAttrInfo(v)} [] k = "link" -> {v \in Link : WfLink(v)}
     [] k = "linfo" -> {v \in LinkInfo : WfLinkInfo(v)} [] k = "sb" -> Super [] k = "ohdr" -> OHeader
 
 Exp(v) ==
   CASE v.kind = "dt_basic" -> ExpDtBasic(v) [] v.kind = "dt_opaque" -> ExpDtOpaque(v) [] v.kind = "dt_vlen" -> ExpDtVlen(v)
-    [] v.kind = "dt_array" -> ExpDtArray(v) [] v.kind = "dt_enum" -> ExpDtEnum(v) [] v.kind = "dt_compound" -> ExpDtCompound(v)
+    [] v.kind = "dt_array" -> ExpDtArray(v) [] v.kind = "dt_enum" -> ExpDtEnum(v) [] v.kind = "dt_compound" -> ExpDtCompound(v) [] v.kind = "dt_compound_n" -> ExpDtCompoundN(v)
     [] v.kind = "dataspace" -> ExpDataspace(v) [] v.kind = "layout" -> ExpLayout(v) [] v.kind = "pipeline" -> ExpPipeline(v)
     [] v.kind = "attr" -> ExpAttr(v) [] v.kind = "ainfo" -> ExpAttrInfo(v) [] v.kind = "link" -> ExpLink(v)
     [] v.kind = "linfo" -> ExpLinkInfo(v) [] v.kind = "sb" -> ExpSuper(v) [] v.kind = "ohdr" -> ExpOHeader(v)
